@@ -151,6 +151,7 @@ def gen_doc(
     extra_fields=True,
     defined_phase_tags=None,
     with_pq=False,
+    mixed_sep=False,
 ):
     d = Doc()
     n_samples = rng.randint(1, 3) if n_samples is None else n_samples
@@ -282,6 +283,15 @@ def gen_doc(
                     elif hostile and is_het and rng.random() < 0.15:
                         gt_alleles = list(reversed(gt_alleles))  # unsorted unphased GT like 1/0
                     call["GT"] = sep.join(gt_alleles)
+                    if mixed_sep and hostile and len(gt_alleles) >= 3 and ps is None and hp is None and rng.random() < 0.25:
+                        # VCF >= 4.3 allows '/' and '|' to be mixed inside one polyploid genotype (0/1|2): phased as soon as one '|' is present
+                        seps = [rng.choice("/|") for _ in range(len(gt_alleles) - 1)]
+                        seps[rng.randrange(len(seps))] = "|"
+                        if all(x == "|" for x in seps):
+                            seps[rng.randrange(len(seps))] = "/"
+                        if rng.random() < 0.5:
+                            gt_alleles = sorted(gt_alleles, key=lambda a: (a == ".", a))
+                        call["GT"] = gt_alleles[0] + "".join(x + a for x, a in zip(seps, gt_alleles[1:]))
                     rec_calls_meta.append((ps, hp, pq))
                     use_ps |= ps is not None
                     use_hp |= hp is not None
